@@ -1,8 +1,11 @@
 package props
 
 import (
+	"encoding/json"
 	"fmt"
+	"math"
 	"math/big"
+	"runtime/debug"
 	"strconv"
 	"strings"
 	"testing"
@@ -596,6 +599,66 @@ func TestC03Grid(t *testing.T) {
 		}
 	}
 	h.AddExtra("C03", "giant_sparse_products", cnt)
+	h.AddExtra("C03", "products_beyond_maxprec_digits", c03ProductBeyondMaxPrec(t))
+}
+
+// c03ProductBeyondMaxPrec: operands of up to MaxPrec digits are valid, so the exact product can have more digit
+// positions than any precision expresses (226050911 words = 4294967309 digits). x = (9*10^(D-1) + 1) scaled to the top
+// of the exponent range with D = 19*226050910, y = c = 1240000000000000001, u = -c * (x's unit): x*y + u = 9c followed
+// by zeros, exact in 20 digits, whatever the mode. A product rounded to MaxPrec digits before the addition loses the
+// lowest digit and the sum comes out one unit low or inexact (F-37). About 5.4 GB and 4 s per mode.
+func c03ProductBeyondMaxPrec(t *testing.T) int {
+	const m = 226050910
+	const c = 1240000000000000001
+	defer debug.FreeOSMemory()
+	xw := make([]decimal.Word, m)
+	xw[0], xw[m-1] = 1, 9000000000000000000
+	x := new(decimal.Decimal).SetPrec(19 * m)
+	x.SetBitsExp(xw, math.MaxInt32-19)
+	y := new(decimal.Decimal).SetPrec(19).SetBitsExp([]decimal.Word{c}, 19)
+	_, xe := x.BitsExp()
+	u := new(decimal.Decimal).SetPrec(19).SetBitsExp([]decimal.Word{c}, int64(xe)-19*m+19)
+	u.Neg(u)
+	if x.Acc() != decimal.Exact || xe != math.MaxInt32-19 || u.IsZero() || len(xw) != m {
+		t.Fatalf("INFRA: giant FMA operands not as constructed (x acc %v exp %d)", x.Acc(), xe)
+	}
+	modes := []model.Mode{model.ToZero, model.ToNearestEven}
+	if h.Thorough() {
+		modes = []model.Mode{model.ToNearestEven, model.ToNearestAway, model.ToZero, model.AwayFromZero, model.ToNegativeInf, model.ToPositiveInf}
+	}
+	want := model.MkFinite(false, "11160000000000000009", math.MaxInt32)
+	n := 0
+	for _, md := range modes {
+		for _, swap := range []bool{false, true} {
+			if swap && !h.Thorough() && md != model.ToZero {
+				continue
+			}
+			z := mkRecv(20, uint8(md))
+			if swap {
+				z.FMA(y, x, u)
+			} else {
+				z.FMA(x, y, u)
+			}
+			got := h.Read(z)
+			o := &h.Obs{}
+			o.Label("product-beyond-maxprec-digits")
+			o.NonTrivial()
+			enc := mustJSON(struct {
+				Words int
+				M     model.Mode
+				Swap  bool
+			}{m, md, swap})
+			if got.Malformed != "" || !got.Val().Equal(want) || model.Acc(got.Acc) != model.Exact {
+				h.ReportGridFail(t, "C03", h.Failf("giant", "(9*10^(D-1)+1)*c - c with D = 19*%d digits, precision 20 %v: got %v (%v), want %v (Exact)", m, md, got.Val(), model.Acc(got.Acc), want), enc)
+			}
+			h.RecordGrid("C03", o, json.RawMessage(enc))
+			n++
+		}
+	}
+	if xw[0] != 1 || xw[m-1] != 9000000000000000000 {
+		t.Fatalf("C03 violated [operand-modified]: FMA changed x's mantissa")
+	}
+	return n
 }
 
 func abs(v int) int {
